@@ -179,6 +179,32 @@ pub fn check_pack(c: &PackCase, rec: &mut Rec) -> Result<(), Violation> {
       if mb::has_four_full_siblings(&cells) {
         return Err(f(Violation::new("pack", "not_packed", format!("to_bmoc_packing left four full siblings: {:?} -> {:?}", s.cells, cells))));
       }
+      // the plain builders hand back exactly what was pushed: to_bmoc() as is, to_bmoc_from_unordered()
+      // after sorting an input pushed out of order (odd positions first, then the even ones backwards)
+      let want_raw: Vec<u64> = s.mcells().iter().map(|c| mb::encode_raw(s.depth_max, *c)).collect();
+      let plain = match catch(|| mk().to_bmoc()) {
+        Ok(r) => r,
+        Err(p) => return Err(f(Violation::new("plain_builder", "panic", format!("to_bmoc panicked on {:?}: {}", s, p)))),
+      };
+      let unordered = match catch(|| {
+        let mut b = BMOCBuilderUnsafe::new(s.depth_max, s.cells.len().max(1));
+        for &(d, h, fl) in s.cells.iter().skip(1).step_by(2) {
+          b.push(d, h, fl);
+        }
+        for &(d, h, fl) in s.cells.iter().step_by(2).rev() {
+          b.push(d, h, fl);
+        }
+        b.to_bmoc_from_unordered()
+      }) {
+        Ok(r) => r,
+        Err(p) => return Err(f(Violation::new("plain_builder", "panic", format!("to_bmoc_from_unordered panicked on {:?}: {}", s, p)))),
+      };
+      for (name, r) in [("to_bmoc", &plain), ("to_bmoc_from_unordered", &unordered)] {
+        let got: Vec<u64> = r.entries.iter().copied().collect();
+        if got != want_raw || r.get_depth_max() != s.depth_max {
+          return Err(f(Violation::new("plain_builder", "entries_changed", format!("{}: pushed {:?}, got the raw entries {:?} (depth_max {})", name, s.cells, &got[..got.len().min(12)], r.get_depth_max()))));
+        }
+      }
     }
     Some(nd) => {
       let r = if c.packing { catch(|| mk().to_lower_depth_bmoc_packing(nd)) } else { catch(|| mk().to_lower_depth_bmoc(nd)) };
